@@ -3,6 +3,7 @@
   Model: HapModel/Frame.lean (`encrypt`, `Tx.write`, `Tx.step` = write-then-install).
 -/
 import Proofs.Frame
+import Proofs.Nonce
 import Proofs.Event
 import HapModel.Gen.Crypto
 namespace Hap.Frame
@@ -64,6 +65,32 @@ where
     have h := drain_wires (K k) hK (ms.flatMap fun m => blocks m.data) hb [] hinc 0 []
     simp only [Nat.zero_add, List.nil_append, List.append_nil] at h
     exact run_flatten (K k) cs {} rfl hinc (by simpa [hcs, sessionBytes_eq] using h)
+
+
+/-- Byte level of one frame. With the cipher object seen as the code sees it (`encrypt(nonce, data,
+    aad)` over byte strings), frame number `i` carrying a block `p` of at most 1024 bytes is, on the wire,
+    `PACK_LENGTH(len p)` (2 bytes, little-endian, never `struct.error`) followed by
+    `encrypt(PACK_NONCE(i), p, aad = PACK_LENGTH(len p))`, and its total size is `2 + len p + 16`. -/
+theorem C05_wire_bytes (B : BAead) (i : Nat) (p : Bytes) (hp : p.length ≤ MAXBLK) :
+    ∃ lb, packLength p.length = some lb ∧ lb.length = 2 ∧ rdLe lb = p.length ∧
+      wire B.toAead i p = lb ++ B.enc (nonceBytes i) lb p ∧
+      (wire B.toAead i p).length = 2 + p.length + TAG := by
+  have h16 : p.length < 65536 := by simp [MAXBLK] at hp; omega
+  refine ⟨le16 p.length, packLength_eq_le16 _ h16, by simp [le16], ?_, rfl, wire_length _ i p⟩
+  have := rdLe_leBytes 2 p.length (by simpa using h16)
+  have e : leBytes 2 p.length = le16 p.length := by
+    have h1 := packLength_eq_le16 _ h16
+    simp only [packLength, h16, if_true, Option.some.injEq] at h1
+    exact h1
+  rw [← e]; exact this
+
+/-- No nonce is ever reused under one session key: in the stream of a session (frames numbered
+    0, 1, 2, … by `C05_frames`), two frames with different numbers below 2^64 are sealed under different
+    nonces, and `PACK_NONCE` refuses (`struct.error`) rather than wraps at 2^64. -/
+theorem C05_nonce_unique (i j : Nat) (hi : i < NONCE_LIMIT) (hj : j < NONCE_LIMIT) (hne : i ≠ j) :
+    packNonce i = some (nonceBytes i) ∧ packNonce j = some (nonceBytes j) ∧
+    nonceBytes i ≠ nonceBytes j ∧ packNonce NONCE_LIMIT = none := by
+  refine ⟨by simp [packNonce, hi], by simp [packNonce, hj], fun e => hne (nonceBytes_inj i j hi hj e), by simp [packNonce]⟩
 
 /-- The pair-verify completion response is the last plaintext ever written: on a connection
     that starts unsecured, for EVERY sequence of writes (responses, events, delayed responses in
